@@ -43,6 +43,19 @@ def uid_of(s):
     return -1 if s else 0
 
 
+# stateless calls to the bus (Bus.tla, BusCalls): member, signature, body, path, interface
+BUSCALLS = {
+    'NotImplemented': ('ListActivatableNames', None, None, BPATH, BUS),
+    'WrongArgs': ('RequestName', 's', [name_str(1)], BPATH, BUS),
+    'OtherPath': ('GetId', None, None, '/org/freedesktop/DBus/x', BUS),
+    'OtherIface': ('GetId', None, None, BPATH, 'org.freedesktop.DBus.Monitoring'),
+    'Ping': ('Ping', None, None, BPATH, 'org.freedesktop.DBus.Peer'),
+    'ReservedName': ('RequestName', 'su', [':1.1', 0], BPATH, BUS),
+    'UserOfSelf': ('GetConnectionUnixUser', 's', None, BPATH, BUS),
+    'UserOfNobody': ('GetConnectionUnixUser', 's', ['org.ex.Nobody'], BPATH, BUS),
+}
+
+
 class BusDriver:
     def __init__(self, clients):
         fakes.install_clock()
@@ -78,8 +91,8 @@ class BusDriver:
         self.sent[self.serial] = (c, descr, raw)
         return self.serial, raw
 
-    def _call_bus(self, c, member, sig=None, body=None):
-        s, raw = self._raw(c, 1, [('path', BPATH), ('interface', BUS), ('member', member), ('destination', BUS)], sig, body,
+    def _call_bus(self, c, member, sig=None, body=None, path=BPATH, iface=BUS):
+        s, raw = self._raw(c, 1, [('path', path), ('interface', iface), ('member', member), ('destination', BUS)], sig, body,
                            descr=('bus', member))
         self.cur = (c, s, member)
         self.p[c].dataReceived(raw)
@@ -132,6 +145,11 @@ class BusDriver:
                                descr=('tobus', what))
             self.p[c].dataReceived(raw)
             return
+        if what in BUSCALLS:
+            member, sig, body, path, iface = BUSCALLS[what]
+            if what == 'UserOfSelf':
+                body = [':1.%d' % self.uid[c]]
+            return self._call_bus(c, member, sig, body, path, iface)
         member = {'GetId': 'GetId', 'HelloAgain': 'Hello', 'NoSuchMethod': 'Frobnicate'}[what]
         self._call_bus(c, member)
 
